@@ -104,8 +104,10 @@ struct stub_tables
     // symbolic points the same coordinate values
     std::size_t cursor = 0;       // index into canon_table<T>::draws() where the current call's draws begin
     key_t last_key;
+    std::uint64_t epoch = 0;      // a harness switches to "another integrand" by changing the epoch: all values become new ones
     key_t call_key(std::uint64_t salt)
     {
+        salt += epoch * 1000000ull;
         auto const& draws = canon_table<T>::draws();
         if (cursor > draws.size()) cursor = 0;     // the table was cleared (new path)
         key_t k;
@@ -144,7 +146,7 @@ struct stub_integrand
             r.channel = mp->channel();
             salt = 100 + r.channel;
         }
-        key_t key = key_by_coords ? key_of(r.coords, salt) : tab->call_key(salt);
+        key_t key = key_by_coords ? key_of(r.coords, salt + tab->epoch * 1000000ull) : tab->call_key(salt);
         if (key_by_coords) tab->last_key = key;
         auto it = tab->f.find(key);
         if (it == tab->f.end())
